@@ -198,7 +198,9 @@ def inventory(model):
                     elif isinstance(x, ast.Subscript):
                         base = location_of(model, fi, x.value, locals_, globs)
                         if base is not None and base[0] not in ('modobj', 'class'):
-                            writes.append(Write(loc_name(base), fi, n, 'mutate', val))
+                            full = isinstance(x.slice, ast.Slice) and x.slice.lower is None and x.slice.upper is None
+                            kind = 'del' if isinstance(n, ast.Delete) and full else 'mutate'
+                            writes.append(Write(loc_name(base), fi, n, kind, val))
             if isinstance(n, ast.Call) and isinstance(n.func, ast.Attribute) and n.func.attr in MUTATORS:
                 base = location_of(model, fi, n.func.value, locals_, globs)
                 if base is not None and base[0] not in ('modobj', 'class'):
